@@ -41,7 +41,7 @@ def gen_value(rng):
   if r < 0.3:
     return {'l': [{'s': 'item %d ' % i * 3} for i in range(rng.randint(4, 12))]}
   if r < 0.38:
-    return rng.choice([{'o': 7}, {'set': [1, 2]}, {'f': 'inf', 'fin': False}, {'c': '(1+2j)'},
+    return rng.choice([{'o': 7}, {'o': 21}, {'o': 22}, {'set': [1, 2]}, {'f': 'inf', 'fin': False}, {'c': '(1+2j)'},
                        {'l': [1, {'o': 8}]}, {'f': 'nan', 'fin': False}])
   return G.gen_value(rng, 0)
 
